@@ -42,6 +42,11 @@ var replayAdapters = map[string]func(eng *Engine, a *obAgg, f *Oblig, replay map
 // fixedReplays: obligations whose counterexample is schedule/sequence shaped (not a function input): a hand-written
 // adapter drives the real code through the scenario the failed obligation describes.
 var fixedReplays = map[string]struct{ tmpl, pkg, run string }{
+	"(*BeaconProcess).StartFollowChain/pre/go StartFollowChain$2#0/the-attempt-result-channel-exists": {"C10_follow_retry_test.go.tmpl", "internal/core", "TestVerifReplayC10FollowRetriesAfterFailedAttempt"},
+	"(*DrandDaemon).Packet/guarded/beaconProcesses-read":       {"C14_daemon_table_race_test.go.tmpl", "internal/core", "race:TestVerifReplayC14DaemonTableRace"},
+	"(*DrandDaemon).BroadcastDKG/guarded/beaconProcesses-read": {"C14_daemon_table_race_test.go.tmpl", "internal/core", "race:TestVerifReplayC14DaemonTableRace"},
+	"(*DrandDaemon).DKGStatus/guarded/beaconProcesses-read":    {"C14_daemon_table_race_test.go.tmpl", "internal/core", "race:TestVerifReplayC14DaemonTableRace"},
+	"(*DrandDaemon).KeypairFor/guarded/beaconProcesses-read":   {"C14_daemon_table_race_test.go.tmpl", "internal/core", "race:TestVerifReplayC14DaemonTableRace"},
 	"ValidateProposal/pre/validateReshareForRemainers#0/0": {"C08_left_node_reproposed_test.go.tmpl", "internal/dkg", "TestVerifReplayLeftNodeReproposed"},
 	"(*DrandHandler).watchWithTimeout/monitor/requests-wait-only-while-the-next-round-is-known/Unlock#0": {"C01_http_waiter_after_stream_reset_test.go.tmpl", "handler/http", "TestVerifReplayC01HTTPWaiterAfterStreamReset"},
 	"SyncChain/assert/no-stored-round-is-skipped-between-catch-up-and-live-delivery": {"C11_handover_gap_test.go.tmpl", "internal/chain/beacon", "TestVerifReplayC11HandoverGap"},
@@ -137,9 +142,17 @@ func runOverlayTest(eng *Engine, pkgRel, fileName, content, runPat string) (bool
 	b, _ := json.Marshal(ov)
 	ovf := filepath.Join(dir, "overlay.json")
 	os.WriteFile(ovf, b, 0o644)
-	ctx, cancel := context.WithTimeout(context.Background(), 240*time.Second)
+	budget, extra := 240*time.Second, []string{}
+	if strings.HasPrefix(runPat, "race:") {
+		// schedule-dependent replays run under the race detector, which reports the unsynchronised access deterministically
+		runPat = strings.TrimPrefix(runPat, "race:")
+		budget, extra = 900*time.Second, []string{"-race"}
+	}
+	ctx, cancel := context.WithTimeout(context.Background(), budget)
 	defer cancel()
-	cmd := exec.CommandContext(ctx, "go", "test", "-overlay", ovf, "-vet=off", "-count=1", "-timeout", "60s", "-run", runPat, "-v", "./"+pkgRel+"/")
+	args := append([]string{"test", "-overlay", ovf, "-vet=off", "-count=1", "-timeout", "120s"}, extra...)
+	args = append(args, "-run", runPat, "-v", "./"+pkgRel+"/")
+	cmd := exec.CommandContext(ctx, "go", args...)
 	cmd.Dir = eng.repo
 	env := []string{}
 	for _, e := range os.Environ() {
@@ -153,7 +166,7 @@ func runOverlayTest(eng *Engine, pkgRel, fileName, content, runPat string) (bool
 	env = append(env, "PATH="+path, "GOFLAGS=-mod=mod", "GOPROXY=off")
 	cmd.Env = env
 	out, err := cmd.CombinedOutput()
-	return err != nil && strings.Contains(string(out), "--- FAIL"), string(out)
+	return err != nil && (strings.Contains(string(out), "--- FAIL") || strings.Contains(string(out), "fatal error: concurrent map")), string(out)
 }
 
 func replayC16(eng *Engine, a *obAgg, f *Oblig, replay map[string]any) bool {
